@@ -201,7 +201,7 @@ def audit_axioms(pid, names):
 	os.makedirs(d, exist_ok=True)
 	f = os.path.join(d, pid + '.lean')
 	with open(f, 'w') as fh:
-		fh.write('import StockpylModel.Props.%s\n' % pid)
+		fh.write('import StockpylModel\n')
 		for n in names:
 			fh.write('#print axioms %s\n' % n)
 	rc, out = run(['lake', 'env', 'lean', f], cwd=LEAN_DIR, timeout=1800)
@@ -246,7 +246,8 @@ def check_obligations(pid, tier):
 	}
 	if tier == 'thorough':
 		t0 = time.time()
-		rc, out2 = run(['lake', 'env', 'leanchecker', 'StockpylModel.Props.' + pid], cwd=LEAN_DIR, timeout=3600)
+		mods = ['StockpylModel.Props.' + pid] + (['StockpylModel.Props.Net'] if pid in ('C01', 'C02', 'C03') else [])
+		rc, out2 = run(['lake', 'env', 'leanchecker'] + mods, cwd=LEAN_DIR, timeout=3600)
 		info['leanchecker'] = {'rc': rc, 'wall_s': round(time.time() - t0, 1), 'tail': out2[-300:]}
 		if rc != 0:
 			raise Infra('leanchecker rejected Props.%s: %s' % (pid, out2[-1500:]))
